@@ -110,6 +110,14 @@ def _xv_value(kind, enc, version=0):
         import xarray as xr
         return xr.Dataset({"v": ((), num), "w": (("t",), [num + 1.0, num + 2.0])},
                           coords={"t": [10, 20], "norm": num + 0.25})
+    if kind == "dataset_sa":
+        # the result carries a scalar coordinate named like the (in
+        # alphabetical order) first argument, holding another value - what
+        # ``table.sel(a=a, method="nearest")`` leaves behind
+        import xarray as xr
+        return xr.Dataset({"v": ((), num), "w": (("t",), [num + 1.0, num + 2.0])},
+                          coords={"t": [10, 20],
+                                  enc.split("=")[0]: num % 7 + 0.125})
     if kind == "dataset_tv":
         # the internal coordinate's labels depend on the arguments (same
         # length, other values)
